@@ -30,6 +30,10 @@ func runEnv(c *Ctx) {
 		tiers = []tier{{leavesFull, 3, tokMid, 3}, {leavesMid, 4, tokTiny, 3}, {leavesNest, 5, []string{"x", "-a", "--"}, 3}}
 	}
 	idx := 0
+	var asLang []langTier
+	for _, t := range tiers {
+		asLang = append(asLang, langTier{leaves: t.leaves, maxSize: t.size, toks: t.toks, maxLen: t.alen})
+	}
 	for ti, t := range tiers {
 		g := ref.NewSpecGen(t.leaves)
 		argvs := ref.Argvs(t.toks, t.alen)
@@ -52,8 +56,12 @@ func runEnv(c *Ctx) {
 				if err != nil {
 					panic(err)
 				}
+				cov := newCoverage(asLang[:ti], spec, n, false)
 				for i, argv := range argvs {
 					c.Beat()
+					if cov.covers(argv) {
+						continue
+					}
 					envCase(c, d, spec, node, argv, &readings[i])
 				}
 			}
